@@ -1508,6 +1508,23 @@ def add_random_jobs(pipe, rng, tier, base_iid):
                 pipe.execute(dict(kind="roll", iid=iid, rep=rep, cap=rng.choice([1, 2, maxcap]), start=s + 1, ag0=ag0,
                                   seed=rng.randrange(10 ** 6),
                                   gen=rng.choice(["Random"] * 4 + ["extreme-zero", "extreme-max"])))
+            if m["kind"] == "pomdp":
+                # sampled start state together with a GIVEN agent state that is not the policy's default
+                if m["pk"] == "ctrl":
+                    w = [0] * m["NN"]
+                    w[(m["ag0"].index(max(m["ag0"])) + 1) % m["NN"]] = 1
+                    dflt = frac_weights([F(x) for x in m["ag0"]])
+                else:
+                    supp0 = [x for x in range(N) if m["p0"][x] > 0]
+                    w = [m["p0"][x] + 1 + supp0.index(x) if x in supp0 else 0 for x in range(N)]
+                    extra = [x for x in sorted(listed) if x not in supp0]
+                    if extra:
+                        w[extra[0]] = 1
+                    dflt = frac_weights([F(x) for x in m["p0"]])
+                if frac_weights([F(x) for x in w]) != dflt:
+                    pipe.execute(dict(kind="roll", iid=iid, rep=rep, cap=rng.choice([0, 1, 2, maxcap]), start=0, ag0=w,
+                                      seed=rng.randrange(10 ** 6), gen="Random"))
+                    pipe.ctx.count("rollouts_sampled_start_with_given_agentstate")
             if m["kind"] == "pomdp" and m["pk"] == "qb":
                 # the same policy object again, now from a given Belief that lists the states in another order and
                 # carries the probability vector of the policy's own initial belief (a different belief with equal
